@@ -3,6 +3,29 @@
 // generated TU.  VF_BE: 0 back  1 back+favor_compile_time  2 back11  3 backmp11 flat_fold
 //                      4 backmp11 function_pointer_array   5 backmp11 favor_compile_time
 #pragma once
+#ifdef VF_PFX
+// product harnesses link two harness TUs into one program: give this TU's C interface its own prefix
+#define VF_CAT_(a, b) a##b
+#define VF_CAT(a, b) VF_CAT_(a, b)
+#define VF_X(n) VF_CAT(VF_PFX, n)
+#define vf_log VF_X(_vf_log)
+#define vf_guard VF_X(_vf_guard)
+#define vf_guardc VF_X(_vf_guardc)
+#define vf_hook VF_X(_vf_hook)
+#define vf_start VF_X(_vf_start)
+#define vf_stop VF_X(_vf_stop)
+#define vf_ev VF_X(_vf_ev)
+#define vf_id VF_X(_vf_id)
+#define vf_sid VF_X(_vf_sid)
+#define vf_sidx VF_X(_vf_sidx)
+#define vf_cfg VF_X(_vf_cfg)
+#define vf_flags VF_X(_vf_flags)
+#define vf_introspect VF_X(_vf_introspect)
+#define vf_is_mp11 VF_X(_vf_is_mp11)
+#define vf_probe VF_X(_vf_probe)
+#define vf_pay_stdany VF_X(_vf_pay_stdany)
+#define vf_pay_boostany VF_X(_vf_pay_boostany)
+#endif
 #include "vf_env.hpp"
 #ifndef VF_BE
 #define VF_BE 0
@@ -56,6 +79,13 @@ inline int vf_pay(boost::any const& a) { return vf_pay_boostany(a); }
 #define VF_NOTRANS(M, S) (4000 + 64 * (M) + (S))
 #define VF_EXC(M) (5000 + (M))
 
+// product harnesses compare two back-ends whose state numbering may differ: log the state by its catalogue index
+extern "C" int vf_sidx(int mi, int id);
+#ifdef VF_NORMALIZE_IDS
+#define VF_NT_ID(MI, s) vf_sidx(MI, s)
+#else
+#define VF_NT_ID(MI, s) (s)
+#endif
 #ifndef VF_PROBE
 #define VF_PROBE(phase, idx, fsm)
 #endif
@@ -69,7 +99,7 @@ inline int vf_pay(boost::any const& a) { return vf_pay_boostany(a); }
 
 #define VF_SM_BODY(I, MI)                                                                        \
   VF_STATE_BODY(I)                                                                               \
-  template <class F, class E> void no_transition(E const& e, F&, int s) { vf_log(VF_NOTRANS(MI, s), vf_pay(e)); } \
+  template <class F, class E> void no_transition(E const& e, F&, int s) { vf_log(VF_NOTRANS(MI, VF_NT_ID(MI, s)), vf_pay(e)); } \
   template <class F, class E> void exception_caught(E const& e, F&, std::exception&) { vf_log(VF_EXC(MI), vf_pay(e)); }
 
 template <int N> struct Act {
